@@ -61,7 +61,7 @@ func newEnv(cfg string) *zygo.Zlisp {
 // ---------- worker -----------------------------------------------------------------------------
 
 func subst(s string, c *Canary) string {
-	r := strings.NewReplacer("@SECRET@", c.Secret, "@OUT@", c.Out, "@EXISTING@", c.Existing, "@PWNED@", c.Pwned, "@DIR@", c.Dir)
+	r := strings.NewReplacer("@SECRETMP@", c.SecretMP, "@SECRET@", c.Secret, "@OUT@", c.Out, "@EXISTING@", c.Existing, "@PWNED@", c.Pwned, "@DIR@", c.Dir)
 	return r.Replace(s)
 }
 
@@ -375,7 +375,7 @@ func runBinary(root, zygoBin string, jobs []Job, stats map[string]int) map[int]J
 	run := func(args []string, stdin string, limit time.Duration) (string, int, bool) {
 		cmd := exec.Command(zygoBin, args...)
 		cmd.Dir = can.Cwd
-		cmd.Env = append(os.Environ(), can.EnvName+"="+can.TokEnv)
+		cmd.Env = append(os.Environ(), can.EnvName+"="+can.TokEnv, "TMPDIR="+can.Tmp, "HOME="+can.Dir)
 		cmd.Stdin = strings.NewReader(stdin)
 		outPath := filepath.Join(dir, "out.txt")
 		of, _ := os.Create(outPath)
@@ -647,6 +647,52 @@ func main() {
 		}
 		return
 	}
+	// one representative bound name per distinct Go function (quick tier) for the foreign-name calls
+	representative := map[string]map[string]bool{}
+	for _, d := range dumps {
+		seen := map[string]bool{}
+		representative[d.Cfg] = map[string]bool{}
+		for _, b := range d.Bindings {
+			if b.Table != "global" || b.GoFunc == "" {
+				continue
+			}
+			key := b.GoFunc
+			if i := strings.LastIndex(key, ".func"); i >= 0 { // closures of one factory: CoreFunctions.CompareFunction.func1
+				key = key[:i]
+			}
+			if k := strings.LastIndex(key, "."); k >= 0 {
+				key = key[k+1:]
+			}
+			if !seen[key] {
+				seen[key] = true
+				representative[d.Cfg][b.Name] = true
+			}
+		}
+	}
+	likelyNames := effectfulNames(tabs)
+	// foreign names: names of the source's tables that this configuration does not bind (the effectful ones when
+	// the tables are available), spelled so that (def NAME ..) is legal
+	foreignNames := func(cfg string) []string {
+		var out []string
+		for _, n := range cands {
+			if _, ok := bound[cfg][n]; ok {
+				continue
+			}
+			if len(likelyNames) > 0 && !likelyNames[n] {
+				continue
+			}
+			ok := n != ""
+			for _, r := range n {
+				if !(r == '_' || r >= 'a' && r <= 'z' || r >= 'A' && r <= 'Z' || r >= '0' && r <= '9') {
+					ok = false
+				}
+			}
+			if ok && !(n[0] >= '0' && n[0] <= '9') {
+				out = append(out, n)
+			}
+		}
+		return out
+	}
 	unsafeName := func(n string) bool { // names that cannot be written as a call head in script text
 		return strings.ContainsAny(n, " \t\n()[]{}\"';`~^") || n == "" || n == "&" || n == "." || n == ":"
 	}
@@ -695,7 +741,11 @@ func main() {
 					continue // control configuration only: goon.Dump of interpreter structures takes minutes
 				}
 				jobs = append(jobs, entryJobs(cfg, e, a.Tier, cfg == "full")...)
+				if cfg != "full" && (e.Kind == "function" || e.Kind == "builder") && (a.Tier == "thorough" || representative[cfg][e.Name]) {
+					jobs = append(jobs, foreignNameJobs(cfg, e, foreignNames(cfg))...)
+				}
 			}
+			jobs = append(jobs, mentionJobs(cfg)...)
 			if cfg != "full" {
 				var w []Entry
 				for _, e := range live {
@@ -718,6 +768,7 @@ func main() {
 					jobs = append(jobs, js...)
 				}
 			}
+			jobs = append(jobs, mentionJobs("bin")...)
 		}
 	}
 	for i := range jobs {
